@@ -703,9 +703,12 @@ def analyse_asserts(F, asserts, live=None):
         if own_root(p) != p and not any(own_root(p) in (dom.sites.get((q, bb)) or {}) for (_k, q, bb, _w) in asserts if q == p):
             run_top(F, dom, F.bodies[p], lambda d: d in int_fns)
     callers = {}
+    ct_only = compile_time_only(F)
     for b in F.fn_bodies():
         if live is not None and own_root(b.rec["path"]) not in live:
             continue          # a caller that the entry points cannot reach contributes no context
+        if own_root(b.rec["path"]) in ct_only:
+            continue          # a caller that runs inside rustc only: an overflow there is a compile error in every profile alike
         for _, t in b.calls():
             d = (t.get("fn") or {}).get("res_def")
             if d in F.bodies:
